@@ -264,7 +264,7 @@ var c20Types = []reflect.Type{
 	reflect.TypeOf([]string{}), reflect.TypeOf(float64(0)), reflect.TypeOf((*[]string)(nil)), reflect.TypeOf([]int{}), reflect.TypeOf(map[string]string{}),
 }
 
-var c20APITags = []string{"attr", "rel", "rel,", "rel,other", "rel,other,inv", "rel,a,b,c", "unknown", "", "attr,x", "relx"}
+var c20APITags = []string{"attr", "rel", "rel,", "rel,other", "rel,other,inv", "rel,a,b,c", "unknown", "", "attr,x", "relx", "rel, other, inv", " attr"}
 
 func c20RandField(r *rng, i int) sfieldSpec {
 	f := sfieldSpec{name: fmt.Sprintf("F%d", i), typ: pick(r, c20Types)}
@@ -370,6 +370,98 @@ func c20NamedID(c *ctx, idTag string) {
 		}
 	}
 	how := fmt.Sprintf("ID of a defined string type, api:%q, check=%v", idTag, checkErr == nil)
+	k := c.add("named-id", how, how, false, oL(nil), oL(nil), key, detail)
+	k.Replay = how
+}
+
+// C20Base is embedded by c20Emb, which gets its ID (and one attribute) by promotion.
+type C20Base struct {
+	ID      string `json:"id" api:"embedded"`
+	Created string `json:"created" api:"attr"`
+}
+
+type c20Emb struct {
+	C20Base
+	Title string   `json:"title" api:"attr"`
+	Refs  []string `json:"refs" api:"rel,embedded"`
+}
+
+type c20Times struct {
+	ID string     `json:"id" api:"times"`
+	At time.Time  `json:"at" api:"attr"`
+	P  *time.Time `json:"p" api:"attr"`
+}
+
+// c20Declared: struct shapes reflect.StructOf cannot build (an embedded struct) and
+// values of a field's type that encoding/json refuses (years outside 0..9999).
+// Oracle only: accepted => built type and wrapper agree, every declared field can be
+// read, written and marshaled without a panic; rejected => BuildType fails, Wrap refuses.
+func c20Declared(c *ctx, name string, mk func() any, sets map[string]any) {
+	var key, detail string
+	fail := func(k, d string) {
+		if key == "" {
+			key, detail = k, d
+		}
+	}
+	var checkErr error
+	if p, pv := guard(func() { checkErr = jsonapi.Check(reflect.ValueOf(mk()).Elem().Interface()) }); p {
+		fail("check-panics", fmt.Sprint(pv))
+		checkErr = fmt.Errorf("panic")
+	}
+	var typ jsonapi.Type
+	var berr error
+	pb, pvb := guard(func() { typ, berr = jsonapi.BuildType(mk()) })
+	var w *jsonapi.Wrapper
+	pw, pvw := guard(func() { w = jsonapi.Wrap(mk()) })
+	if checkErr != nil {
+		if !pb && berr == nil {
+			fail("rejected-struct-buildtype-succeeds", checkErr.Error())
+		}
+		if !pw {
+			fail("rejected-struct-wrap-succeeds", checkErr.Error())
+		}
+	} else {
+		switch {
+		case pb:
+			fail("accepted-struct-buildtype-panics", fmt.Sprint(pvb))
+		case berr != nil:
+			fail("accepted-struct-buildtype-fails", berr.Error())
+		case pw:
+			fail("accepted-struct-wrap-panics", fmt.Sprint(pvw))
+		default:
+			if p, pv := guard(func() {
+				if w.GetType().Name != typ.Name || !reflect.DeepEqual(w.Attrs(), typ.Attrs) || !reflect.DeepEqual(w.Rels(), typ.Rels) {
+					fail("wrapper-type-differs-from-built-type", fmt.Sprintf("wrapper %s, built type %s", oStruct(w), oType(typ)))
+				}
+				fresh := typ.New()
+				for _, r := range []jsonapi.Resource{w, fresh} {
+					for n := range typ.Attrs {
+						_ = r.Get(n)
+					}
+					for n := range typ.Rels {
+						_ = r.Get(n)
+					}
+					for n, v := range sets {
+						r.Set(n, v)
+						if !sameValue(r.Get(n), v) {
+							fail("accepted-struct-field-not-kept", n)
+						}
+					}
+					var fields []string
+					for n := range typ.Attrs {
+						fields = append(fields, n)
+					}
+					_ = jsonapi.MarshalResource(r, "/", fields, nil)
+					if cp, ok := r.(jsonapi.Copier); ok {
+						_ = cp.Copy()
+					}
+				}
+			}); p {
+				fail("accepted-struct-method-panics", fmt.Sprint(pv))
+			}
+		}
+	}
+	how := fmt.Sprintf("declared struct %s, check=%v", name, checkErr == nil)
 	k := c.add("named-id", how, how, false, oL(nil), oL(nil), key, detail)
 	k.Replay = how
 }
@@ -541,6 +633,10 @@ func runC20(c *ctx) {
 	}
 	c20SameName(c, false)
 	c20SameName(c, true)
+	c20Declared(c, "with an embedded struct that brings the ID", func() any { return &c20Emb{} }, map[string]any{"title": "x", "refs": []string{"1"}})
+	far, neg := time.Date(10000, 1, 1, 0, 0, 0, 0, time.UTC), time.Date(-1, 1, 1, 0, 0, 0, 0, time.UTC)
+	c20Declared(c, "time attributes set to years 10000 and -1", func() any { return &c20Times{} }, map[string]any{"at": far, "p": &neg})
+	c20Declared(c, "time attributes set to years -1 and 10000", func() any { return &c20Times{} }, map[string]any{"at": neg, "p": &far})
 	goodID := sfieldSpec{name: "ID", typ: reflect.TypeOf(""), hasJSON: true, jsonTag: "id", hasAPI: true, apiTag: "things"}
 	// single-field variations, exhaustively: every type x every api tag x json tag forms
 	for _, t := range c20Types {
